@@ -1,0 +1,10 @@
+//go:build verif
+
+// Contracts for package ecdh, checked by /verif/govc. Comment-only.
+package ecdh
+
+//@ func Unmarshal
+//@   ensures ok: ret1 == (len(data) == 32)
+//@   ensures nilOnFail: !ret1 ==> ret0 == nil
+//@   ensures typ: ret1 ==> typeIs[*[32]byte](ret0) && fresh(ret0)
+//@   ensures content: ret1 ==> (forall i int :: 0 <= i && i < 32 ==> (*(ret0.(*[32]byte)))[i] == data[i])
